@@ -860,6 +860,13 @@ def _parse_source_for_lambda(
     # enclosing function for the lambda - as funny things can be done with indents
     # and function arguments, and the tokenizer does not take kindly to surprising
     # "un-indents".
+    if inspect.ismethod(ast_source) or hasattr(ast_source, "__wrapped__"):
+        # The source that can be found is that of the underlying function: it does not say
+        # what the bound object is or what the decorator's wrapper does.
+        raise ValueError(
+            f"Unable to use the source of {ast_source} - it is a bound method or a decorated "
+            "function. Wrap it in a lambda."
+        )
     func_name = None
     start_token = None
     source, lambda_line = _get_sourcelines(ast_source)
